@@ -320,6 +320,46 @@ func runC02(ctx *core.Ctx) {
 		}
 		cs.Flush(lc)
 	})
+	// one attribute name, another value pattern per element (or per scope): the same value, short and
+	// long, on all of them in one document, in every order - a verdict belongs to (element, attribute, value)
+	ctx.Run("same-attribute-different-patterns", ctx.N(300, 3000), func(cs *core.Case) {
+		r := cs.R
+		k := gen.Pick(r, []string{"title", "id", "lang", "width", "x"})
+		els := []string{"p", "div", "span", "b", "my-x"}
+		r.Shuffle(len(els), func(i, j int) { els[i], els[j] = els[j], els[i] })
+		ops := []spec.Op{{K: spec.KNew}}
+		pats := r.Perm(6)
+		for i, el := range els[:4] {
+			op := spec.Op{K: spec.KAllowAttrs, Attrs: []string{k}, Re: gen.ValLib[pats[i]].Re, Scope: "els", Names: []string{el}}
+			if el == "my-x" {
+				op.Scope, op.ElRe, op.Names = "match", `^my-`, nil
+			}
+			ops = append(ops, op)
+		}
+		if r.Intn(3) == 0 {
+			ops = append(ops, spec.Op{K: spec.KAllowAttrs, Attrs: []string{k}, Re: gen.ValLib[pats[4]].Re, Scope: "global"}, spec.Op{K: spec.KAllowElements, Names: []string{els[4]}})
+		}
+		env := NewEnv(ops)
+		lc := core.LocalCounts{}
+		for i := 0; i < 40; i++ {
+			good := gen.ValLib[pats[r.Intn(4)]].Good
+			v := good[r.Intn(len(good))]
+			if v != "" && r.Intn(2) == 0 {
+				v = strings.Repeat(v, 130/len(v)+1+r.Intn(3)) // repeated: still accepted by the patterns that are closed under repetition (digits, letters), refused by the others
+			}
+			order := r.Perm(len(els))
+			var nodes []*gen.Node
+			for _, oi := range order {
+				nodes = append(nodes, &gen.Node{Name: els[oi], Attrs: [][2]string{{k, v}}, Kids: []*gen.Node{{Text: "t"}}})
+			}
+			ob := observe(env, gen.Serialize(r, nodes, 0), i)
+			cs.Eval()
+			lc["same_attribute_documents"]++
+			c02Judge(cs, ob, lc)
+		}
+		cs.Flush(lc)
+	})
+	ctx.Floor("same_attribute_documents", 10000)
 	ctx.Floor("managed_attribute_tags_without_options", 50000)
 	ctx.MinNontrivial(int64(ctx.N(5000, 100000)))
 	ctx.Floor("output_attributes_judged", 20000)
